@@ -1301,9 +1301,11 @@ func (fr *Frame) checkNonNil(v ssa.Value, x Term, pos token.Pos) {
 	case *ssa.Alloc, *ssa.FieldAddr, *ssa.IndexAddr, *ssa.Global:
 		return
 	}
-	if fr.fn.Signature.Recv() != nil && len(fr.fn.Params) > 0 && v == fr.fn.Params[0] {
-		return // receivers are non-nil by implicit precondition
+	if fr.isTop && fr.fn.Signature.Recv() != nil && len(fr.fn.Params) > 0 && v == fr.fn.Params[0] {
+		return // the receiver of the function under proof is non-nil by implicit precondition
 	}
+	// (the receiver of an inlined method is whatever the caller passed: a nil receiver faults at
+	// its first dereference, here)
 	if fr.vc.spec > 0 {
 		return
 	}
